@@ -284,7 +284,8 @@ def r10_6(chk):
     chk.inst("R10.6", f"{f.ref}::filter", ok, "above-horizon samples plus the station's AOS/LOS/MAX events" if ok else "filter changed", loc(f, f.node))
     ok = "event_classes = tuple((listener.event for listener in sta_list))" in t and "sta_list = stations_listeners(self)" in t
     chk.inst("R10.6", f"{f.ref}::event-classes", ok, "the filter lets through exactly the event classes of the station's own listeners" if ok else "changed", loc(f, f.node))
-    ok = "point.frame = self" in t and "point.form = 'spherical'" in t and t.index("point.frame = self") < t.index("point.form = 'spherical'") < t.index("point.phi < 0")
+    conv = "point = point.copy(frame=self, form='spherical')"
+    ok = conv in t and t.index(conv) < t.index("point.phi < 0")
     chk.inst("R10.6", f"{f.ref}::topocentric-spherical", ok, "each point is expressed in the station frame, spherical, before the elevation test" if ok else "changed", loc(f, f.node))
     sl = repo.func(LIS, "stations_listeners")
     t = unparse(sl.node)
@@ -365,6 +366,46 @@ def r10_7(chk):
     chk.floor("R10.7", 22)
 
 
+
+def r10_8(chk):
+    """The sample a listener keeps as `prev` is never changed behind its back: `Speaker.listen` stores the yielded object
+    itself (`listener.prev = orb`), so a consumer of `iter()` inside the package must not write to the points it receives.
+    (`TopocentricFrame.visibility` set `point.frame` / `point.form` in place: a listener without an explicit frame then compared
+    its next sample with a previous one expressed in the station frame -- 27 spurious periapsis events in 24 h.)"""
+    from ..ownership import stores_through
+    repo = chk.repo
+    n = 0
+    for f in repo.all_funcs():
+        loops = [l for l in ast.walk(f.node) if isinstance(l, ast.For) and isinstance(l.iter, ast.Call) and isinstance(l.iter.func, ast.Attribute)
+                 and l.iter.func.attr in ("iter", "_iter") and isinstance(l.target, ast.Name)]
+        for l in loops:
+            n += 1
+            var = l.target.id
+            bad = []
+            rebound = False
+            for st in l.body:
+                for sub in ast.walk(st):
+                    if isinstance(sub, ast.Assign) and any(isinstance(t, ast.Name) and t.id == var for t in sub.targets):
+                        rebound = True          # `point = point.copy(...)`: what follows works on another object
+                    if rebound:
+                        continue
+                    tg = []
+                    if isinstance(sub, ast.Assign):
+                        tg = [t for t in sub.targets if isinstance(t, (ast.Attribute, ast.Subscript))]
+                    elif isinstance(sub, ast.AugAssign) and isinstance(sub.target, (ast.Attribute, ast.Subscript)):
+                        tg = [sub.target]
+                    for t in tg:
+                        root = t
+                        while isinstance(root, (ast.Attribute, ast.Subscript)):
+                            root = root.value
+                        if isinstance(root, ast.Name) and root.id == var:
+                            bad.append(unparse(t))
+            ok = not bad
+            chk.inst("R10.8", f"{f.ref}::for {var} in {unparse(l.iter.func)}", ok, "the yielded samples are read, or converted on a copy" if ok else
+                     f"writes {bad} on the yielded sample, which the listeners keep as their previous sample", loc(f, l))
+    chk.floor("R10.8", 3)
+
+
 def run(chk):
     chk.rule("R10.1", "listeners cleared before the first listen of every iteration")
     chk.rule("R10.2", "listen(): check, bisect(prev, orb), remember; events sorted and yielded before the sample")
@@ -380,4 +421,6 @@ def run(chk):
     chk.guard(r10_6, chk)
     chk.rule("R10.7", "shadow / terminator / anomaly geometry: named intermediates equal their expressions; branch structure")
     chk.guard(r10_7, chk)
+    chk.rule("R10.8", "consumers of iter() inside the package do not write to the yielded samples (the listeners keep them as `prev`)")
+    chk.guard(r10_8, chk)
     chk.assume("watched quantities are continuous between samples (detection is complete w.r.t. sampling only)")
